@@ -196,7 +196,7 @@ pub proof fn lemma_ev_trans(a: Heap, b: Heap, c: Heap, l: Set<int>, l2: Set<int>
 // the RefMut of node n is dropped
 pub proof fn heap_unlock(tracked h: &mut Heap, n: int)
     requires old(h).locked.contains(n),
-    ensures final(h).st == old(h).st, final(h).out == old(h).out, final(h).locked == old(h).locked.remove(n),
+    ensures final(h).st == old(h).st, final(h).out == old(h).out, final(h).locked == old(h).locked.remove(n), final(h).ids == old(h).ids, final(h).log == old(h).log,
 {
     h.locked = h.locked.remove(n);
 }
@@ -204,7 +204,7 @@ pub proof fn heap_unlock(tracked h: &mut Heap, n: int)
 pub proof fn heap_mark_done(tracked h: &mut Heap, n: int)
     requires alive(*old(h), n),
     ensures final(h).st == old(h).st.insert(n, NodeSt { done: true, ..old(h).st[n] }),
-            final(h).out == old(h).out, final(h).locked == old(h).locked,
+            final(h).out == old(h).out, final(h).locked == old(h).locked, final(h).ids == old(h).ids, final(h).log == old(h).log,
 {
     h.st = h.st.insert(n, NodeSt { done: true, ..h.st[n] });
 }
